@@ -60,8 +60,10 @@ class RerunFormatter(Formatter):
 
     def eof(self):
         """Called at end of a feature."""
-        if self.current_feature and self.current_feature.status.has_failed():
+        if self.current_feature:
             # -- COLLECT SCENARIO FAILURES: Failed or error-class status.
+            # NOTE: Independent of the feature status
+            #   (an aborted run may leave the feature "untested").
             for scenario in self.current_feature.walk_scenarios():
                 if scenario.status.has_failed():
                     self.failed_scenarios.append(scenario)
